@@ -300,17 +300,34 @@ fn cli_triples(ctx: &mut Ctx) -> Vec<Violation> {
     let mut sc = cli::Scratch::new("C08", "w");
     let bin = cli::fml_release();
     let n = ctx.tier.pick(64, 600);
-    for i in 0..n {
+    // programs that compile although something in them is wrong (a print whose counts do not
+    // match, an unknown function, a repeated field ... in a branch that is never taken): whatever
+    // the compiler has to say about them must not travel on the channel that carries the image
+    let odd: Vec<Prog> = crate::props::c02::constructs(None)
+        .into_iter()
+        .map(|(_, c)| {
+            let mut p = crate::props::c02::prelude();
+            p.push(E::If(bx(E::Bool(false)), bx(c), Some(bx(E::Null))));
+            p.push(print("done\\n", vec![]));
+            p
+        })
+        .collect();
+    for i in 0..n + odd.len() {
         if !ctx.shard_mine(i) {
             continue;
         }
         let tape = crate::tools::random_tape(crate::tape::mix(ctx.seed ^ (i as u64 * 1_000_003)), 300);
         let mut t = Tape::new(&tape);
-        let prog = match i % 8 {
-            0 | 2 | 4 => long_string_program(&mut t),
-            1 | 5 => long_code_program(&mut t),
-            3 => wide_table_program(&mut t),
-            _ => generate(&mut t, &Profile::full()).prog,
+        let prog = if i >= n {
+            ctx.label("cli-triple:compiles-but-wrong-somewhere");
+            odd[i - n].clone()
+        } else {
+            match i % 8 {
+                0 | 2 | 4 => long_string_program(&mut t),
+                1 | 5 => long_code_program(&mut t),
+                3 => wide_table_program(&mut t),
+                _ => generate(&mut t, &Profile::full()).prog,
+            }
         };
         let src = render::text(&prog, render::Style::Minimal);
         let fsrc = sc.file("p.fml");
